@@ -96,6 +96,31 @@ pub fn check_program(skel: &[Sk], is_function: bool, prologue: bool, for_form: u
     (out, true)
 }
 
+/// The same invariants on the CFG the real runner builds from a file (route B: `TemplateData` /
+/// `FunctionData`, with and without a main component).
+pub fn check_program_via_runner(skel: &[Sk], is_function: bool, with_main: bool, dir: &std::path::Path, case: &Value) -> Vec<Violation> {
+    let fors: usize = skel.iter().map(|s| s.fors()).sum();
+    let def = marker_def_for(skel, is_function, Vec::new(), true, vec![0; fors]);
+    let printed = print_def(&def);
+    match pipe::lift_via_runner(&printed.text, dir, &def.name, is_function, with_main) {
+        Ok(cfg) => check_wellformed(&cfg, Some(&printed), "runner", case),
+        Err(LiftError::Panic { info, .. }) => vec![Violation {
+            signature: info.signature(),
+            what: "lifting through the runner panicked".into(),
+            case: case.clone(),
+            expected: "a CFG".into(),
+            observed: format!("{}\n{}", info.message, printed.text),
+        }],
+        Err(_) => vec![Violation {
+            signature: "runner-rejects-program".into(),
+            what: "a program that lifts from its definition does not lift through the runner".into(),
+            case: case.clone(),
+            expected: "a CFG".into(),
+            observed: printed.text.clone(),
+        }],
+    }
+}
+
 pub fn run(run: &Run) {
     let sweeps = [("full", run.tier.pick(4, 5)), ("deep", run.tier.pick(7, 8))];
     run.set_rule(&format!(
@@ -142,9 +167,33 @@ pub fn run(run: &Run) {
             }
         });
     }
+    // Route B on every skeleton of <= 3 statements.
+    let root = crate::infra::work_dir("c12");
+    let small = enumerate(opts("full", 3));
+    run.set_extra("skeletons_via_runner", json!(small.len()));
+    par_each(&small, |i, skel| {
+        let dir = root.join(format!("{:?}", std::thread::current().id()).replace(|c: char| !c.is_ascii_alphanumeric(), ""));
+        for (is_function, with_main) in [(true, false), (false, false), (false, true)] {
+            let case = json!({"kind": "skeleton-runner", "index": i, "function": is_function, "main": with_main});
+            run.watch(&case);
+            run.eval(1);
+            run.violations(check_program_via_runner(skel, is_function, with_main, &dir, &case));
+        }
+    });
+    let _ = std::fs::remove_dir_all(&root);
 }
 
 pub fn replay(case: &Value) -> Vec<Violation> {
+    if case["kind"].as_str() == Some("skeleton-runner") {
+        let root = crate::infra::work_dir("c12-replay");
+        let skels = enumerate(opts("full", 3));
+        let out = match skels.get(case["index"].as_u64().unwrap_or(0) as usize) {
+            Some(skel) => check_program_via_runner(skel, case["function"].as_bool().unwrap_or(true), case["main"].as_bool().unwrap_or(false), &root, case),
+            None => Vec::new(),
+        };
+        let _ = std::fs::remove_dir_all(&root);
+        return out;
+    }
     let max = case["max_stmts"].as_u64().unwrap_or(6) as usize;
     let index = case["index"].as_u64().unwrap_or(0) as usize;
     let is_function = case["function"].as_bool().unwrap_or(true);
